@@ -66,30 +66,29 @@ theorem writeDisk_source (disk : List (Tag × Digest)) (t x : Tag) (d v : Digest
 
 /-! ### the executor -/
 
-/-- what an executor run (or a SyncExec) may do to the backend, given that the backend only holds
-copies of the disk (`hbd`): existing entries stay, a new entry is a copy of the disk, and after a
-success the backend holds the disk's digest for the tag -/
+/-- what an executor run (or a SyncExec) may do to the backend: existing entries stay, a new entry is
+a copy of the disk's digest for that tag, after a success the backend holds the tag — and, if it did
+not hold it before, exactly the disk's digest -/
 structure ExecSpec (disk backend : List (Tag × Digest)) (t : Tag) (ok : Bool) (b' : List (Tag × Digest)) : Prop where
   stable : ∀ x v, lookup backend x = some v → lookup b' x = some v
-  source : ∀ x v, lookup b' x = some v → lookup disk x = some v
-  done : ok = true → (lookup disk t).isSome → lookup b' t = lookup disk t
+  source : ∀ x v, lookup b' x = some v → lookup backend x = some v ∨ (x = t ∧ lookup disk t = some v)
+  done : ok = true → (lookup disk t).isSome → (lookup b' t).isSome
+  fresh : ok = true → lookup backend t = none → (lookup disk t).isSome → lookup b' t = lookup disk t
   failed : ok = false → b' = backend
 
-theorem runExecutor_spec (disk backend : List (Tag × Digest)) (t : Tag) (up : Bool)
-    (hbd : ∀ x v, lookup backend x = some v → lookup disk x = some v) :
+theorem runExecutor_spec (disk backend : List (Tag × Digest)) (t : Tag) (up : Bool) :
     ExecSpec disk backend t (runExecutor disk backend t up).1 (runExecutor disk backend t up).2 := by
   unfold runExecutor
   by_cases h1 : (up && (lookup backend t).isSome) = true
   · simp only [h1, if_true]
-    simp only [Bool.and_eq_true, Option.isSome_iff_exists] at h1
-    obtain ⟨_, v, hv⟩ := h1
-    exact ⟨fun _ _ h => h, hbd, fun _ _ => by rw [hv, hbd t v hv], by simp⟩
+    simp only [Bool.and_eq_true] at h1
+    exact ⟨fun _ _ h => h, fun _ _ h => Or.inl h, fun _ _ => h1.2, fun _ hn _ => by simp [hn] at h1, by simp⟩
   · simp only [h1, Bool.false_eq_true, if_false]
     cases hd : lookup disk t with
-    | none => exact ⟨fun _ _ h => h, hbd, by simp [hd], by simp⟩
+    | none => exact ⟨fun _ _ h => h, fun _ _ h => Or.inl h, by simp [hd], by simp [hd], by simp⟩
     | some d =>
       cases up with
-      | false => exact ⟨fun _ _ h => h, hbd, by simp, fun _ => rfl⟩
+      | false => exact ⟨fun _ _ h => h, fun _ _ h => Or.inl h, by simp, by simp, fun _ => rfl⟩
       | true =>
         simp only [Bool.true_and, Option.isSome_iff_exists, not_exists] at h1
         have hnone : lookup backend t = none := by
@@ -97,30 +96,30 @@ theorem runExecutor_spec (disk backend : List (Tag × Digest)) (t : Tag) (up : B
           | none => rfl
           | some v => exact absurd hb (h1 v)
         simp only [if_true]
-        refine ⟨?_, ?_, ?_, by simp⟩
+        refine ⟨?_, ?_, ?_, ?_, by simp⟩
         · intro x v h; rw [lookup_append, h]
         · intro x v h
           rw [lookup_append] at h
           cases hx : lookup backend x with
-          | some w => rw [hx] at h; exact hbd x v (by rw [hx]; exact h)
+          | some w => rw [hx] at h; exact Or.inl h
           | none =>
             rw [hx] at h
             by_cases he : t = x
-            · subst he; simp at h; rw [hd, h]
+            · subst he; simp at h; right; exact ⟨rfl, by rw [hd, h]⟩
             · simp [he] at h
-        · intro _ _
-          rw [lookup_append, hnone]; simp [hd]
+        · intro _ _; rw [lookup_append, hnone]; simp
+        · intro _ _ _; rw [lookup_append, hnone]; simp [hd]
 
 theorem syncExec_spec (disk : List (Tag × Digest)) (t : Tag) (fuel : Nat) (ups : List Bool)
-    (backend : List (Tag × Digest)) (hbd : ∀ x v, lookup backend x = some v → lookup disk x = some v) :
+    (backend : List (Tag × Digest)) :
     ExecSpec disk backend t (syncExec disk t fuel ups backend).1 (syncExec disk t fuel ups backend).2 := by
   induction fuel generalizing ups backend with
-  | zero => exact ⟨fun _ _ h => h, hbd, by simp [syncExec], fun _ => rfl⟩
+  | zero => exact ⟨fun _ _ h => h, fun _ _ h => Or.inl h, by simp [syncExec], by simp [syncExec], fun _ => rfl⟩
   | succ n ih =>
     cases ups with
-    | nil => exact ⟨fun _ _ h => h, hbd, by simp [syncExec], fun _ => rfl⟩
+    | nil => exact ⟨fun _ _ h => h, fun _ _ h => Or.inl h, by simp [syncExec], by simp [syncExec], fun _ => rfl⟩
     | cons up ups =>
-      have e := runExecutor_spec disk backend t up hbd
+      have e := runExecutor_spec disk backend t up
       simp only [syncExec]
       cases hr : runExecutor disk backend t up with
       | mk ok b1 =>
@@ -131,20 +130,22 @@ theorem syncExec_spec (disk : List (Tag × Digest)) (t : Tag) (fuel : Nat) (ups 
           simp only
           have hb1 : b1 = backend := e.failed rfl
           subst hb1
-          exact ih ups b1 hbd
+          exact ih ups b1
 
-/-! ### the invariant -/
+/-! ### the invariant (all histories, evictions included) -/
 
 structure Inv (s : State) : Prop where
   good : Retry.Good s.r
   /-- the node's disk only holds digests that were put for the tag -/
   diskPut : ∀ t d, lookup s.disk t = some d → (t, d) ∈ s.putFor
-  /-- the backend only holds copies of what the node's disk holds -/
-  backendDisk : ∀ t b, lookup s.backend t = some b → lookup s.disk t = some b
-  /-- an acknowledged PUT: the tag is on disk, and the backend holds the same digest — or (async
-  mode only) the write-back task is still stored -/
-  okPut : ∀ t ∈ s.okPut, (lookup s.disk t).isSome ∧
-    (lookup s.backend t = lookup s.disk t ∨ (s.writeThrough = false ∧ stored s t))
+  /-- so does the backend -/
+  backendPut : ∀ t b, lookup s.backend t = some b → (t, b) ∈ s.putFor
+  /-- a tag file without persist flag (evictable) has been written back -/
+  flag : ∀ t, (lookup s.disk t).isSome → t ∉ s.persist → (lookup s.backend t).isSome
+  /-- an acknowledged PUT: the backend holds the tag, or (asynchronous mode) the tag file is on disk,
+  protected from eviction, and its write-back task is stored -/
+  okPut : ∀ t ∈ s.okPut, (lookup s.backend t).isSome ∨
+    ((lookup s.disk t).isSome ∧ t ∈ s.persist ∧ s.writeThrough = false ∧ stored s t)
 
 theorem kept (r : Retry.State) (o : Retry.Op) (k : Key) (hk : k ∈ Retry.keys r.rows)
     (h1 : o ≠ .finish k true) (h2 : ∀ inv, o = .start inv → k ∉ inv) :
@@ -165,6 +166,29 @@ theorem mem_ins (l : List Nat) (x y : Nat) : y ∈ ins l x ↔ y = x ∨ y ∈ l
       · exact h
   · simp [or_comm]
 
+theorem mem_del (l : List Nat) (x y : Nat) : y ∈ del l x ↔ y ≠ x ∧ y ∈ l := by
+  simp [del, and_comm]
+
+theorem lookup_erase (m : List (Tag × Digest)) (t x : Tag) :
+    lookup (erase m t) x = if x = t then none else lookup m x := by
+  unfold lookup erase
+  induction m with
+  | nil => simp
+  | cons e es ih =>
+    simp only [List.filter_cons]
+    by_cases h1 : e.1 = t
+    · simp only [h1, ne_eq, not_true_eq_false, decide_false, Bool.false_eq_true, if_false]
+      rw [ih]
+      by_cases h2 : x = t
+      · simp [h2]
+      · have : ¬ t = x := fun h => h2 h.symm
+        simp [h2, List.find?_cons, h1, this]
+    · simp only [h1, ne_eq, not_false_eq_true, decide_true, if_true, List.find?_cons]
+      by_cases h3 : e.1 = x
+      · have : x ≠ t := fun h => h1 (h3.trans h)
+        simp [h3, this]
+      · simp only [h3, decide_false]; exact ih
+
 theorem addBegin_stored (r : Retry.State) (k : Key) (h : (Retry.stepO r (.addBegin k 0)).2 ≠ .closed) :
     k ∈ Retry.keys (Retry.stepO r (.addBegin k 0)).1.rows := by
   simp only [Retry.stepO] at h ⊢
@@ -174,6 +198,11 @@ theorem addBegin_stored (r : Retry.State) (k : Key) (h : (Retry.stepO r (.addBeg
     · simp [hh, Retry.keys, Retry.newRow]
   all_goals simp at h
 
+theorem isSome_of_stable {m m' : List (Tag × Digest)} (h : ∀ x v, lookup m x = some v → lookup m' x = some v)
+    (x : Tag) (hx : (lookup m x).isSome) : (lookup m' x).isSome := by
+  obtain ⟨v, hv⟩ := Option.isSome_iff_exists.mp hx
+  rw [h x v hv]; rfl
+
 theorem step_inv (s : State) (o : Op) (h : Inv s) : Inv (step s o) := by
   unfold step
   cases o with
@@ -181,7 +210,6 @@ theorem step_inv (s : State) (o : Op) (h : Inv s) : Inv (step s o) := by
     simp only [stepO]
     cases hc : checkDeps deps <;> simp only
     case ok =>
-      -- the disk write
       have hdisk : ∀ x v, lookup s.disk x = some v → lookup (writeDisk s.disk t d) x = some v :=
         fun x v => writeDisk_stable s.disk t x d v
       have hput : ∀ x v, lookup (writeDisk s.disk t d) x = some v → (x, v) ∈ s.putFor ++ [(t, d)] := by
@@ -189,60 +217,66 @@ theorem step_inv (s : State) (o : Op) (h : Inv s) : Inv (step s o) := by
         rcases writeDisk_source s.disk t x d v hx with h1 | ⟨rfl, rfl⟩
         · exact List.mem_append_left _ (h.diskPut x v h1)
         · simp
-      have hbd1 : ∀ x v, lookup s.backend x = some v → lookup (writeDisk s.disk t d) x = some v :=
-        fun x v hx => hdisk x v (h.backendDisk x v hx)
-      have hsome : ∀ x, (lookup s.disk x).isSome → (lookup (writeDisk s.disk t d) x).isSome := by
-        intro x hx
+      have hbput : ∀ x v, lookup s.backend x = some v → (x, v) ∈ s.putFor ++ [(t, d)] :=
+        fun x v hx => List.mem_append_left _ (h.backendPut x v hx)
+      -- a tag file without flag after the write: it is another tag's, unchanged
+      have hflag0 : ∀ x, (lookup (writeDisk s.disk t d) x).isSome → x ∉ ins s.persist t → (lookup s.backend x).isSome := by
+        intro x hx hnp
+        have hxt : x ≠ t := fun he => hnp ((mem_ins _ _ _).mpr (Or.inl he))
+        have hnp' : x ∉ s.persist := fun hp => hnp ((mem_ins _ _ _).mpr (Or.inr hp))
         obtain ⟨v, hv⟩ := Option.isSome_iff_exists.mp hx
-        rw [hdisk x v hv]; rfl
+        rcases writeDisk_source s.disk t x d v hv with h1 | ⟨h1, _⟩
+        · exact h.flag x (by rw [h1]; rfl) hnp'
+        · exact absurd h1 hxt
       by_cases hw : s.writeThrough = true
       · simp only [hw, if_true]
-        have e := syncExec_spec (writeDisk s.disk t d) t 3 ups s.backend hbd1
+        have e := syncExec_spec (writeDisk s.disk t d) t 3 ups s.backend
         cases hr : syncExec (writeDisk s.disk t d) t 3 ups s.backend with
         | mk ok b' =>
           rw [hr] at e
-          have okOld : ∀ x ∈ s.okPut, (lookup (writeDisk s.disk t d) x).isSome ∧
-              (lookup b' x = lookup (writeDisk s.disk t d) x ∨ (s.writeThrough = false ∧ stored s x)) := by
+          have hbput' : ∀ x v, lookup b' x = some v → (x, v) ∈ s.putFor ++ [(t, d)] := by
+            intro x v hx
+            rcases e.source x v hx with h1 | ⟨rfl, h1⟩
+            · exact hbput x v h1
+            · exact hput x v h1
+          have okOld : ∀ x ∈ s.okPut, (lookup b' x).isSome := by
             intro x hx
-            obtain ⟨a, b⟩ := h.okPut x hx
-            refine ⟨hsome x a, ?_⟩
-            rcases b with b | b
-            · obtain ⟨v, hv⟩ := Option.isSome_iff_exists.mp a
-              left; rw [hdisk x v hv, e.stable x v (by rw [b, hv])]
-            · exact Or.inr b
+            rcases h.okPut x hx with a | ⟨_, _, a, _⟩
+            · exact isSome_of_stable e.stable x a
+            · rw [hw] at a; cases a
           cases ok with
           | false =>
             simp only
-            refine ⟨h.good, hput, e.source, ?_⟩
-            intro x hx
-            have := okOld x hx
-            simpa [hw, stored] using this
+            refine ⟨h.good, hput, hbput', ?_, fun x hx => Or.inl (okOld x hx)⟩
+            intro x hx hnp
+            exact isSome_of_stable e.stable x (hflag0 x hx hnp)
           | true =>
             simp only
-            refine ⟨h.good, hput, e.source, ?_⟩
-            intro x hx
-            rcases (mem_ins _ _ _).mp hx with rfl | hx
-            · exact ⟨writeDisk_self _ _ _, Or.inl (e.done rfl (writeDisk_self _ _ _))⟩
-            · have := okOld x hx
-              simpa [hw, stored] using this
+            refine ⟨h.good, hput, hbput', ?_, ?_⟩
+            · intro x hx hnp
+              by_cases hxt : x = t
+              · subst hxt; exact e.done rfl hx
+              · have : x ∉ ins s.persist t := fun hp => hnp ((mem_del _ _ _).mpr ⟨hxt, hp⟩)
+                exact isSome_of_stable e.stable x (hflag0 x hx this)
+            · intro x hx
+              rcases (mem_ins _ _ _).mp hx with rfl | hx
+              · exact Or.inl (e.done rfl (writeDisk_self _ _ _))
+              · exact Or.inl (okOld x hx)
       · have hw' : s.writeThrough = false := by simpa using hw
         simp only [hw', Bool.false_eq_true, if_false]
         have okOld : ∀ (r' : Retry.State), (∀ x, stored s x → x ∈ Retry.keys r'.rows) →
-            ∀ x ∈ s.okPut, (lookup (writeDisk s.disk t d) x).isSome ∧
-              (lookup s.backend x = lookup (writeDisk s.disk t d) x ∨ (false = false ∧ x ∈ Retry.keys r'.rows)) := by
+            ∀ x ∈ s.okPut, (lookup s.backend x).isSome ∨
+              ((lookup (writeDisk s.disk t d) x).isSome ∧ x ∈ ins s.persist t ∧ false = false ∧ x ∈ Retry.keys r'.rows) := by
           intro r' hr' x hx
-          obtain ⟨a, b⟩ := h.okPut x hx
-          refine ⟨hsome x a, ?_⟩
-          rcases b with b | ⟨_, b⟩
-          · obtain ⟨v, hv⟩ := Option.isSome_iff_exists.mp a
-            left; rw [hdisk x v hv, b, hv]
-          · exact Or.inr ⟨rfl, hr' x b⟩
+          rcases h.okPut x hx with a | ⟨a, b, _, c⟩
+          · exact Or.inl a
+          · exact Or.inr ⟨isSome_of_stable hdisk x a, (mem_ins _ _ _).mpr (Or.inr b), rfl, hr' x c⟩
         cases ha : Retry.stepO s.r (.addBegin t 0) with
         | mk r1 o1 =>
           have hr1 : r1 = (Retry.stepO s.r (.addBegin t 0)).1 := by rw [ha]
           have ho1 : o1 = (Retry.stepO s.r (.addBegin t 0)).2 := by rw [ha]
-          have hclosed : Inv { s with disk := writeDisk s.disk t d, putFor := s.putFor ++ [(t, d)] } := by
-            refine ⟨h.good, hput, hbd1, ?_⟩
+          have hclosed : Inv { s with disk := writeDisk s.disk t d, persist := ins s.persist t, putFor := s.putFor ++ [(t, d)] } := by
+            refine ⟨h.good, hput, hbput, hflag0, ?_⟩
             intro x hx
             have := okOld s.r (fun _ h => h) x hx
             simpa [hw', stored] using this
@@ -251,12 +285,12 @@ theorem step_inv (s : State) (o : Op) (h : Inv s) : Inv (step s o) := by
             apply kept _ _ _ _ (by simp) (by intro inv h; cases h)
             rw [hr1]
             exact kept s.r (.addBegin t 0) x hx (by simp) (by intro inv h; cases h)
-          have hacc : o1 ≠ .closed → Inv { s with disk := writeDisk s.disk t d, putFor := s.putFor ++ [(t, d)], r := Retry.step r1 (.addEnq t), okPut := ins s.okPut t } := by
+          have hacc : o1 ≠ .closed → Inv { s with disk := writeDisk s.disk t d, persist := ins s.persist t, putFor := s.putFor ++ [(t, d)], r := Retry.step r1 (.addEnq t), okPut := ins s.okPut t } := by
             intro hne
-            refine ⟨Retry.step_good _ _ (hr1 ▸ Retry.step_good _ _ h.good), hput, hbd1, ?_⟩
+            refine ⟨Retry.step_good _ _ (hr1 ▸ Retry.step_good _ _ h.good), hput, hbput, hflag0, ?_⟩
             intro x hx
             rcases (mem_ins _ _ _).mp hx with rfl | hx
-            · refine ⟨writeDisk_self _ _ _, Or.inr ⟨hw', ?_⟩⟩
+            · refine Or.inr ⟨writeDisk_self _ _ _, (mem_ins _ _ _).mpr (Or.inl rfl), hw', ?_⟩
               show x ∈ Retry.keys (Retry.step r1 (.addEnq x)).rows
               apply kept _ _ _ _ (by simp) (by intro inv h; cases h)
               rw [hr1]
@@ -280,62 +314,96 @@ theorem step_inv (s : State) (o : Op) (h : Inv s) : Inv (step s o) := by
     · rename_i hi
       have hne : ∀ x, o ≠ .finish x true ∧ ∀ inv, o = .start inv → x ∉ inv := by
         intro x; cases o <;> simp [internalOp] at hi ⊢
-      refine ⟨Retry.step_good _ _ h.good, h.diskPut, h.backendDisk, ?_⟩
+      refine ⟨Retry.step_good _ _ h.good, h.diskPut, h.backendPut, h.flag, ?_⟩
       intro x hx
-      obtain ⟨a, b⟩ := h.okPut x hx
-      refine ⟨a, ?_⟩
-      rcases b with b | ⟨b1, b2⟩
-      · exact Or.inl b
-      · exact Or.inr ⟨b1, kept _ _ _ b2 (hne x).1 (hne x).2⟩
+      rcases h.okPut x hx with a | ⟨a, b, c, e⟩
+      · exact Or.inl a
+      · exact Or.inr ⟨a, b, c, kept _ _ _ e (hne x).1 (hne x).2⟩
     · exact h
   | exec t up =>
     simp only [stepO]
     split
-    · have e := runExecutor_spec s.disk s.backend t up h.backendDisk
+    · have e := runExecutor_spec s.disk s.backend t up
       cases hr : runExecutor s.disk s.backend t up with
       | mk ok b' =>
         rw [hr] at e
         simp only
-        refine ⟨Retry.step_good _ _ h.good, h.diskPut, e.source, ?_⟩
-        intro x hx
-        obtain ⟨a, b⟩ := h.okPut x hx
-        refine ⟨a, ?_⟩
-        obtain ⟨v, hv⟩ := Option.isSome_iff_exists.mp a
-        rcases b with b | ⟨b1, b2⟩
-        · left; rw [e.stable x v (by rw [b, hv]), hv]
-        · by_cases hxt : x = t
-          · subst hxt
-            cases ok with
-            | true => left; exact e.done rfl a
-            | false =>
-              right
-              exact ⟨b1, kept _ _ _ b2 (by simp) (by intro inv h; cases h)⟩
-          · right
-            refine ⟨b1, kept _ _ _ b2 ?_ (by intro inv h; cases h)⟩
-            intro he; injection he with he _; exact hxt he.symm
+        have hbput' : ∀ x v, lookup b' x = some v → (x, v) ∈ s.putFor := by
+          intro x v hx
+          rcases e.source x v hx with h1 | ⟨rfl, h1⟩
+          · exact h.backendPut x v h1
+          · exact h.diskPut x v h1
+        refine ⟨Retry.step_good _ _ h.good, h.diskPut, hbput', ?_, ?_⟩
+        · intro x hx hnp
+          cases ok with
+          | false => exact isSome_of_stable e.stable x (h.flag x hx (by simpa using hnp))
+          | true =>
+            by_cases hxt : x = t
+            · subst hxt; exact e.done rfl hx
+            · have : x ∉ s.persist := fun hp => hnp (by simpa using (mem_del _ _ _).mpr ⟨hxt, hp⟩)
+              exact isSome_of_stable e.stable x (h.flag x hx this)
+        · intro x hx
+          rcases h.okPut x hx with a | ⟨a, b, c, f⟩
+          · exact Or.inl (isSome_of_stable e.stable x a)
+          · by_cases hxt : x = t
+            · subst hxt
+              cases ok with
+              | true => exact Or.inl (e.done rfl a)
+              | false => exact Or.inr ⟨a, by simpa using b, c, kept _ _ _ f (by simp) (by intro inv h; cases h)⟩
+            · right
+              refine ⟨a, ?_, c, kept _ _ _ f ?_ (by intro inv h; cases h)⟩
+              · cases ok
+                · simpa using b
+                · simpa using (mem_del _ _ _).mpr ⟨hxt, b⟩
+              · intro he; injection he with he _; exact hxt he.symm
     · exact h
   | restart =>
     simp only [stepO]
-    refine ⟨Retry.step_good _ _ (Retry.step_good _ _ h.good), h.diskPut, h.backendDisk, ?_⟩
+    refine ⟨Retry.step_good _ _ (Retry.step_good _ _ h.good), h.diskPut, h.backendPut, h.flag, ?_⟩
     intro x hx
-    obtain ⟨a, b⟩ := h.okPut x hx
-    refine ⟨a, ?_⟩
-    rcases b with b | ⟨b1, b2⟩
-    · exact Or.inl b
+    rcases h.okPut x hx with a | ⟨a, b, c, e⟩
+    · exact Or.inl a
     · right
-      refine ⟨b1, ?_⟩
+      refine ⟨a, b, c, ?_⟩
       apply kept _ _ _ _ (by simp) (by intro inv h; injection h with h; subst h; simp)
-      exact kept _ _ _ b2 (by simp) (by intro inv h; cases h)
+      exact kept _ _ _ e (by simp) (by intro inv h; cases h)
+  | evict t =>
+    simp only [stepO]
+    split
+    · exact h
+    · split
+      · exact h
+      · rename_i hnp
+        refine ⟨h.good, ?_, h.backendPut, ?_, ?_⟩
+        · intro x v hx
+          rw [lookup_erase] at hx
+          by_cases hxt : x = t
+          · simp [hxt] at hx
+          · simp only [hxt, if_false] at hx; exact h.diskPut x v hx
+        · intro x hx hp
+          rw [lookup_erase] at hx
+          by_cases hxt : x = t
+          · simp [hxt] at hx
+          · simp only [hxt, if_false] at hx; exact h.flag x hx hp
+        · intro x hx
+          rcases h.okPut x hx with a | ⟨a, b, c, e⟩
+          · exact Or.inl a
+          · have hxt : x ≠ t := fun he => hnp (he ▸ b)
+            refine Or.inr ⟨?_, b, c, e⟩
+            rw [lookup_erase]; simp only [hxt, if_false]; exact a
 
 theorem inv_always (cfg : Retry.Config) (wt : Bool) (ops : List Op) : Inv ((sys cfg wt).run ops) :=
   Sys.run_inv (sys cfg wt) Inv
-    ⟨Retry.good_init cfg, by simp [sys, init, lookup], by simp [sys, init, lookup], by simp [sys, init]⟩
+    ⟨Retry.good_init cfg, by simp [sys, init, lookup], by simp [sys, init, lookup], by simp [sys, init, lookup],
+     by simp [sys, init]⟩
     (fun s a h => step_inv s a h) ops
 
 /-! ### the property -/
 
 /-- **C32 (1)** A tag PUT is acknowledged only if the origin cluster confirmed *every* dependency
-(`Stat` succeeded for each one; the first `not found` or error refuses the PUT and stores nothing). -/
+(`Stat` succeeded for each one; the first `not found` or error refuses the PUT and stores nothing).
+(`checkDeps` is the model's transcription of the loop; the tie — all answer vectors up to length 3/4,
+the number of Stat calls compared, monitor `put-without-dependency` — carries this clause.) -/
 theorem put_only_with_all_dependencies (s : State) (t : Tag) (d : Digest) (deps : List DepRes) (ups : List Bool)
     (h : out s (.put t d deps ups) = .ok) : ∀ r ∈ deps, r = .ok := by
   have hc : checkDeps deps = .ok := by
@@ -356,9 +424,170 @@ theorem put_refused_stores_nothing (s : State) (t : Tag) (d : Digest) (deps : Li
     (h : checkDeps deps ≠ .ok) : step s (.put t d deps ups) = s := by
   cases hc : checkDeps deps <;> simp only [step, stepO, hc] <;> exact absurd hc h
 
-/-- **C32 (2a)** Tags do not change once stored on a node: no operation changes the digest the disk
-holds for a tag (a second PUT with another digest is acknowledged but leaves the first digest). -/
-theorem disk_stable (s : State) (o : Op) (t : Tag) (d : Digest) (h : lookup s.disk t = some d) :
+/-- **C32 (2b)** After every history — evictions included — what a GET resolves a tag to is a digest
+that was put for that tag, whether it comes from the node's disk or (the tag file evicted or never
+there) from the backend.  Both branches are reachable (examples at the end). -/
+theorem get_resolves_a_put_digest (cfg : Retry.Config) (wt : Bool) (ops : List Op) (t : Tag) (up : Bool) (d : Digest)
+    (h : out ((sys cfg wt).run ops) (.get t up) = .digest d) : (t, d) ∈ ((sys cfg wt).run ops).putFor := by
+  have hi := inv_always cfg wt ops
+  simp only [out, stepO] at h
+  cases hd : lookup ((sys cfg wt).run ops).disk t with
+  | some v =>
+    simp only [hd] at h
+    injection h with h; subst h
+    exact hi.diskPut t v hd
+  | none =>
+    simp only [hd] at h
+    cases up with
+    | false => simp at h
+    | true =>
+      cases hb : lookup ((sys cfg wt).run ops).backend t with
+      | none => simp [hb] at h
+      | some v =>
+        simp only [hb, if_true] at h
+        injection h with h; subst h
+        exact hi.backendPut t v hb
+
+/-- after an eviction the node answers what the backend holds -/
+theorem get_after_evict_is_backend (s : State) (t : Tag) (h : out s (.evict t) = .ok) :
+    out (step s (.evict t)) (.get t true) = match lookup s.backend t with | some b => .digest b | none => .notFound := by
+  simp only [out, step, stepO] at h ⊢
+  cases hd : lookup s.disk t with
+  | none => simp [hd] at h
+  | some v =>
+    simp only [hd] at h ⊢
+    by_cases hp : t ∈ s.persist
+    · simp [hp] at h
+    · simp only [hp, if_false, lookup_erase, if_true]
+      cases lookup s.backend t <;> rfl
+
+/-- **C32 (2c)** After an acknowledged PUT the tag stays resolvable for ever (through any history,
+evictions and restarts included): a GET with a reachable backend answers a digest. -/
+theorem acknowledged_put_resolvable (cfg : Retry.Config) (wt : Bool) (ops : List Op) (t : Tag)
+    (h : t ∈ ((sys cfg wt).run ops).okPut) : ∃ d, out ((sys cfg wt).run ops) (.get t true) = .digest d := by
+  have hi := inv_always cfg wt ops
+  simp only [out, stepO]
+  cases hd : lookup ((sys cfg wt).run ops).disk t with
+  | some v => exact ⟨v, rfl⟩
+  | none =>
+    rcases hi.okPut t h with a | ⟨a, _⟩
+    · obtain ⟨b, hb⟩ := Option.isSome_iff_exists.mp a
+      exact ⟨b, by simp [hb]⟩
+    · rw [hd] at a; cases a
+
+/-! #### "tags do not change once stored" and "the backend holds that same digest" -/
+
+/-- node and backend never disagree about a tag -/
+def Agree (s : State) : Prop := ∀ t d b, lookup s.disk t = some d → lookup s.backend t = some b → b = d
+
+instance (s : State) : Decidable (Agree s) :=
+  decidable_of_iff (∀ e ∈ s.disk, ∀ f ∈ s.backend, lookup s.disk e.1 = some e.2 → lookup s.backend f.1 = some f.2 → e.1 = f.1 → f.2 = e.2)
+    ⟨fun h t d b hd hb => by
+        have he : (t, d) ∈ s.disk := by
+          unfold lookup at hd
+          cases hf : s.disk.find? (fun e => decide (e.1 = t)) with
+          | none => simp [hf] at hd
+          | some e =>
+            simp only [hf, Option.map_some, Option.some.injEq] at hd
+            have := List.find?_some hf; simp at this
+            have hm := List.mem_of_find?_eq_some hf
+            obtain ⟨a, b'⟩ := e; simp at this hd; subst this; subst hd; exact hm
+        have hf : (t, b) ∈ s.backend := by
+          unfold lookup at hb
+          cases hf : s.backend.find? (fun e => decide (e.1 = t)) with
+          | none => simp [hf] at hb
+          | some e =>
+            simp only [hf, Option.map_some, Option.some.injEq] at hb
+            have := List.find?_some hf; simp at this
+            have hm := List.mem_of_find?_eq_some hf
+            obtain ⟨a, b'⟩ := e; simp at this hb; subst this; subst hb; exact hm
+        exact h _ he _ hf hd hb rfl,
+     fun h e _ f _ hd hb hef => h e.1 e.2 f.2 hd (hef ▸ hb)⟩
+
+/-- the answers to GET for a tag never change along a history -/
+def AnswersStable (cfg : Retry.Config) (wt : Bool) (ops : List Op) : Prop :=
+  ∀ (n m : Nat) (t : Tag) (u1 u2 : Bool) (d1 d2 : Digest), n ≤ m →
+    out ((sys cfg wt).run (ops.take n)) (.get t u1) = .digest d1 →
+    out ((sys cfg wt).run (ops.take m)) (.get t u2) = .digest d2 → d1 = d2
+
+/-- **C32 (2a)+(3), full statement (refuted below):** for every history, tags do not change and the
+backend never holds another digest than the node. -/
+def tags_stable_and_backend_agrees_target : Prop :=
+  ∀ (cfg : Retry.Config) (wt : Bool) (ops : List Op), Agree ((sys cfg wt).run ops) ∧ AnswersStable cfg wt ops
+
+def cfg1 : Retry.Config := { capIn := 4, capRe := 4, nIn := 2, nRe := 2, retryInterval := 0 }
+
+/-- PUT t d1, written back, the idle tag file is evicted (cache cleanup), PUT t d2: the node stores d2,
+the write-back executor's `Stat` short-cut ("already uploaded") keeps d1 in the backend for ever. -/
+def reputHistory : List Op :=
+  [.put 1 10 [.ok] [], .retry (.take .inc), .exec 1 true, .evict 1,
+   .put 1 11 [.ok] [], .retry (.take .inc), .exec 1 true]
+
+theorem reput_disagrees : ((sys cfg1 false).run reputHistory).disk = [(1, 11)] ∧
+    ((sys cfg1 false).run reputHistory).backend = [(1, 10)] ∧ ¬ stored ((sys cfg1 false).run reputHistory) 1 := by decide
+
+theorem reput_answers_change :
+    out ((sys cfg1 false).run (reputHistory.take 4)) (.get 1 true) = .digest 10 ∧
+    out ((sys cfg1 false).run reputHistory) (.get 1 true) = .digest 11 ∧
+    out ((sys cfg1 false).run (reputHistory ++ [.evict 1])) (.get 1 true) = .digest 10 := by decide
+
+theorem not_tags_stable_and_backend_agrees : ¬ tags_stable_and_backend_agrees_target := by
+  intro h
+  have := (h cfg1 false reputHistory).1
+  revert this
+  decide
+
+theorem putFor_mono (s : State) (o : Op) (x : Tag × Digest) (h : x ∈ s.putFor) : x ∈ (step s o).putFor := by
+  unfold step
+  cases o with
+  | put t d deps ups =>
+    simp only [stepO]
+    cases checkDeps deps <;> simp only <;> try exact h
+    split
+    · split <;> exact List.mem_append_left _ h
+    · split <;> exact List.mem_append_left _ h
+  | get t up => simp only [stepO]; (repeat' split) <;> exact h
+  | retry o => simp only [stepO]; split <;> exact h
+  | exec t up => simp only [stepO]; (repeat' split) <;> exact h
+  | restart => exact h
+  | evict t => simp only [stepO]; (repeat' split) <;> exact h
+
+theorem putFor_mono_hist (s : State) (ops : List Op) (x : Tag × Digest) (h : x ∈ s.putFor) :
+    x ∈ (ops.foldl step s).putFor := by
+  induction ops generalizing s with
+  | nil => exact h
+  | cons o rest ih => exact ih _ (putFor_mono s o x h)
+
+theorem run_take (cfg : Retry.Config) (wt : Bool) (ops : List Op) (n : Nat) :
+    (sys cfg wt).run ops = (ops.drop n).foldl step ((sys cfg wt).run (ops.take n)) := by
+  calc (sys cfg wt).run ops = (sys cfg wt).run (ops.take n ++ ops.drop n) := by rw [List.take_append_drop]
+    _ = _ := by simp only [Sys.run, sys, List.foldl_append]
+
+/-- **strongest true statement, 1.** If every tag is only ever put with one digest (tags are not
+re-pointed), then through every history — evictions, restarts, outages included — the answers never
+change and node and backend never disagree. -/
+theorem tags_stable_and_backend_agrees_partial_single_digest (cfg : Retry.Config) (wt : Bool) (ops : List Op)
+    (hs : ∀ t d d', (t, d) ∈ ((sys cfg wt).run ops).putFor → (t, d') ∈ ((sys cfg wt).run ops).putFor → d = d') :
+    Agree ((sys cfg wt).run ops) ∧ AnswersStable cfg wt ops := by
+  have hi := inv_always cfg wt ops
+  refine ⟨fun t d b hd hb => hs t b d (hi.backendPut t b hb) (hi.diskPut t d hd), ?_⟩
+  intro n m t u1 u2 d1 d2 _ h1 h2
+  have p1 := get_resolves_a_put_digest cfg wt (ops.take n) t u1 d1 h1
+  have p2 := get_resolves_a_put_digest cfg wt (ops.take m) t u2 d2 h2
+  have q1 : (t, d1) ∈ ((sys cfg wt).run ops).putFor := by rw [run_take cfg wt ops n]; exact putFor_mono_hist _ _ _ p1
+  have q2 : (t, d2) ∈ ((sys cfg wt).run ops).putFor := by rw [run_take cfg wt ops m]; exact putFor_mono_hist _ _ _ p2
+  exact hs t d1 d2 q1 q2
+
+/-- no eviction in the history -/
+def NoEvict : Op → Prop
+  | .evict _ => False
+  | _ => True
+
+instance (o : Op) : Decidable (NoEvict o) := by cases o <;> simp only [NoEvict] <;> exact inferInstance
+
+/-- **C32 (2a)** without eviction no operation changes the digest the disk holds for a tag (a second PUT
+with another digest is acknowledged but leaves the first digest). -/
+theorem disk_stable (s : State) (o : Op) (hne : NoEvict o) (t : Tag) (d : Digest) (h : lookup s.disk t = some d) :
     lookup (step s o).disk t = some d := by
   unfold step
   cases o with
@@ -382,63 +611,112 @@ theorem disk_stable (s : State) (o : Op) (t : Tag) (d : Digest) (h : lookup s.di
     · split <;> exact h
     · exact h
   | restart => exact h
+  | evict t' => exact absurd hne (by simp [NoEvict])
 
-theorem disk_stable_hist (s : State) (ops : List Op) (t : Tag) (d : Digest) (h : lookup s.disk t = some d) :
-    lookup (ops.foldl step s).disk t = some d := by
+theorem disk_stable_hist (s : State) (ops : List Op) (hne : ∀ o ∈ ops, NoEvict o) (t : Tag) (d : Digest)
+    (h : lookup s.disk t = some d) : lookup (ops.foldl step s).disk t = some d := by
   induction ops generalizing s with
   | nil => exact h
-  | cons o rest ih => exact ih (step s o) (disk_stable s o t d h)
+  | cons o rest ih =>
+    exact ih (step s o) (fun o' h' => hne o' (List.mem_cons_of_mem _ h')) (disk_stable s o (hne o (by simp)) t d h)
 
-/-- **C32 (2b)** After every history, what a GET resolves a tag to is a digest that was put for that
-tag — whether it comes from the node's disk or, the disk not having it, from the backend. -/
-theorem get_resolves_a_put_digest (cfg : Retry.Config) (wt : Bool) (ops : List Op) (t : Tag) (up : Bool) (d : Digest)
-    (h : out ((sys cfg wt).run ops) (.get t up) = .digest d) : (t, d) ∈ ((sys cfg wt).run ops).putFor := by
-  have hi := inv_always cfg wt ops
-  simp only [out, stepO] at h
-  cases hd : lookup ((sys cfg wt).run ops).disk t with
-  | some v =>
-    simp only [hd] at h
-    injection h with h; subst h
-    exact hi.diskPut t v hd
-  | none =>
-    simp only [hd] at h
-    cases up with
-    | false => simp at h
-    | true =>
-      cases hb : lookup ((sys cfg wt).run ops).backend t with
-      | none => simp [hb] at h
-      | some v =>
-        simp only [hb, if_true] at h
-        injection h with h; subst h
-        exact hi.diskPut t v (hi.backendDisk t v hb)
+/-- without eviction the backend only ever holds copies of the node's digest -/
+def BackendDisk (s : State) : Prop := ∀ t b, lookup s.backend t = some b → lookup s.disk t = some b
 
-/-- **C32 (2c)** After an acknowledged PUT the node resolves the tag (from its disk, whatever the
-backend's state), and keeps resolving it to that same digest after any further history. -/
-theorem acknowledged_put_resolves (s : State) (t : Tag) (d : Digest) (deps : List DepRes) (ups : List Bool)
-    (h : out s (.put t d deps ups) = .ok) :
-    ∃ d', lookup (step s (.put t d deps ups)).disk t = some d' ∧
-      ∀ (ops : List Op) (up : Bool), out (ops.foldl step (step s (.put t d deps ups))) (.get t up) = .digest d' := by
-  have hsome : (lookup (step s (.put t d deps ups)).disk t).isSome := by
-    simp only [out, step, stepO] at h ⊢
-    cases hc : checkDeps deps <;> simp only [hc] at h ⊢ <;> try (exact absurd h (by simp))
+theorem step_backendDisk (s : State) (o : Op) (hne : NoEvict o) (h : BackendDisk s) : BackendDisk (step s o) := by
+  unfold step
+  cases o with
+  | put t d deps ups =>
+    simp only [stepO]
+    cases hc : checkDeps deps <;> simp only <;> try exact h
+    have hb1 : ∀ x v, lookup s.backend x = some v → lookup (writeDisk s.disk t d) x = some v :=
+      fun x v hx => writeDisk_stable _ _ _ _ _ (h x v hx)
     split
-    · split <;> exact writeDisk_self _ _ _
-    · split <;> exact writeDisk_self _ _ _
-  obtain ⟨d', hd'⟩ := Option.isSome_iff_exists.mp hsome
-  refine ⟨d', hd', ?_⟩
-  intro ops up
-  have := disk_stable_hist _ ops t d' hd'
-  simp [out, stepO, this]
+    · have e := syncExec_spec (writeDisk s.disk t d) t 3 ups s.backend
+      cases hr : syncExec (writeDisk s.disk t d) t 3 ups s.backend with
+      | mk ok b' =>
+        rw [hr] at e
+        have : ∀ x v, lookup b' x = some v → lookup (writeDisk s.disk t d) x = some v := by
+          intro x v hx
+          rcases e.source x v hx with h1 | ⟨rfl, h1⟩
+          · exact hb1 x v h1
+          · exact h1
+        cases ok <;> exact this
+    · split <;> exact hb1
+  | get t' up => simp only [stepO]; (repeat' split) <;> exact h
+  | retry o => simp only [stepO]; split <;> exact h
+  | exec t' up =>
+    simp only [stepO]
+    split
+    · have e := runExecutor_spec s.disk s.backend t' up
+      cases hr : runExecutor s.disk s.backend t' up with
+      | mk ok b' =>
+        rw [hr] at e
+        simp only
+        intro x v hx
+        rcases e.source x v hx with h1 | ⟨rfl, h1⟩
+        · exact h x v h1
+        · exact h1
+    · exact h
+  | restart => exact h
+  | evict t' => exact absurd hne (by simp [NoEvict])
 
-/-- **C32 (3a)** write-through: when the PUT is acknowledged the backend already holds exactly the
-digest the node resolves. -/
+theorem backendDisk_always (cfg : Retry.Config) (wt : Bool) (ops : List Op) (hne : ∀ o ∈ ops, NoEvict o) :
+    BackendDisk ((sys cfg wt).run ops) := by
+  have := Sys.runFrom_inv_pre (sys cfg wt) (fun _ o => NoEvict o) BackendDisk
+    (fun s a h hp => step_backendDisk s a hp h) ops (sys cfg wt).init (by simp [BackendDisk, sys, init, lookup])
+  apply this
+  clear this
+  generalize (sys cfg wt).init = s0
+  induction ops generalizing s0 with
+  | nil => trivial
+  | cons o rest ih => exact ⟨hne o (by simp), ih (fun o' h' => hne o' (List.mem_cons_of_mem _ h')) _⟩
+
+/-- **strongest true statement, 2.** In histories without eviction (the scope the property names:
+"tags do not change once stored on a node") the answers never change, node and backend never
+disagree, and the backend holds nothing the node does not hold. -/
+theorem tags_stable_and_backend_agrees_partial_no_evict (cfg : Retry.Config) (wt : Bool) (ops : List Op)
+    (hne : ∀ o ∈ ops, NoEvict o) : Agree ((sys cfg wt).run ops) ∧ AnswersStable cfg wt ops := by
+  have hbd := backendDisk_always cfg wt ops hne
+  refine ⟨fun t d b hd hb => by rw [hbd t b hb] at hd; exact (Option.some.inj hd), ?_⟩
+  intro n m t u1 u2 d1 d2 hnm h1 h2
+  have hne1 : ∀ o ∈ ops.take n, NoEvict o := fun o ho => hne o (List.mem_of_mem_take ho)
+  have hbd1 := backendDisk_always cfg wt (ops.take n) hne1
+  -- the first answer came from the disk
+  have hd1 : lookup ((sys cfg wt).run (ops.take n)).disk t = some d1 := by
+    simp only [out, stepO] at h1
+    cases hd : lookup ((sys cfg wt).run (ops.take n)).disk t with
+    | some v => simp only [hd] at h1; injection h1 with h1; rw [h1]
+    | none =>
+      simp only [hd] at h1
+      cases u1 with
+      | false => simp at h1
+      | true =>
+        cases hb : lookup ((sys cfg wt).run (ops.take n)).backend t with
+        | none => simp [hb] at h1
+        | some v => rw [hbd1 t v hb] at hd; cases hd
+  -- it is still there at the later point
+  have hsplit : ops.take m = ops.take n ++ (ops.take m).drop n := by
+    have := (List.take_append_drop n (ops.take m)).symm
+    rwa [List.take_take, Nat.min_eq_left hnm] at this
+  have hd2 : lookup ((sys cfg wt).run (ops.take m)).disk t = some d1 := by
+    rw [hsplit]
+    simp only [Sys.run, sys, List.foldl_append]
+    apply disk_stable_hist _ _ _ t d1 hd1
+    intro o ho
+    exact hne o (List.mem_of_mem_take (List.mem_of_mem_drop ho))
+  simp only [out, stepO, hd2] at h2
+  injection h2
+
+/-- **C32 (3a)** write-through: when the PUT is acknowledged the backend already holds the tag — with
+exactly the node's digest unless the tag was re-pointed after an eviction (partial theorems above). -/
 theorem write_through_is_synchronous (cfg : Retry.Config) (ops : List Op) (t : Tag) (d : Digest)
     (deps : List DepRes) (ups : List Bool)
     (h : out ((sys cfg true).run ops) (.put t d deps ups) = .ok) :
     let s' := step ((sys cfg true).run ops) (.put t d deps ups)
-    lookup s'.backend t = lookup s'.disk t ∧ (lookup s'.disk t).isSome := by
+    (lookup s'.backend t).isSome ∧ (lookup s'.disk t).isSome ∧
+      (lookup ((sys cfg true).run ops).backend t = none → lookup s'.backend t = lookup s'.disk t) := by
   intro s'
-  have hi : Inv s' := step_inv _ _ (inv_always cfg true ops)
   have hwt : ∀ (l : List Op), ((sys cfg true).run l).writeThrough = true := by
     intro l
     refine Sys.run_inv (sys cfg true) (fun s => s.writeThrough = true) rfl ?_ l
@@ -446,42 +724,49 @@ theorem write_through_is_synchronous (cfg : Retry.Config) (ops : List Op) (t : T
     have : (step s a).writeThrough = s.writeThrough := by
       cases a <;> simp only [step, stepO] <;> (repeat' split) <;> rfl
     exact this.trans hs
-  have hin : t ∈ s'.okPut := by
-    simp only [s', out, step, stepO, hwt ops, if_true] at h ⊢
-    cases hc : checkDeps deps <;> simp only [hc] at h ⊢ <;> try (exact absurd h (by simp))
-    split
-    · exact (mem_ins _ _ _).mpr (Or.inl rfl)
-    · rename_i hf; simp [hf] at h
-  have hw' : s'.writeThrough = true := by
-    have : s'.writeThrough = ((sys cfg true).run ops).writeThrough := by
-      simp only [s', step, stepO]; (repeat' split) <;> rfl
-    rw [this, hwt]
-  obtain ⟨a, b⟩ := hi.okPut t hin
-  rcases b with b | ⟨b1, _⟩
-  · exact ⟨b, a⟩
-  · rw [hw'] at b1; cases b1
+  simp only [s', out, step, stepO, hwt ops, if_true] at h ⊢
+  cases hc : checkDeps deps <;> simp only [hc] at h ⊢ <;> try (exact absurd h (by simp))
+  have e := syncExec_spec (writeDisk ((sys cfg true).run ops).disk t d) t 3 ups ((sys cfg true).run ops).backend
+  cases hr : syncExec (writeDisk ((sys cfg true).run ops).disk t d) t 3 ups ((sys cfg true).run ops).backend with
+  | mk ok b' =>
+    rw [hr] at e h
+    cases ok with
+    | false => simp at h
+    | true =>
+      simp only
+      exact ⟨e.done rfl (writeDisk_self _ _ _), writeDisk_self _ _ _, fun hn => e.fresh rfl hn (writeDisk_self _ _ _)⟩
 
-/-- **C32 (3b)** asynchronous mode, safety: after every history, for every tag with an acknowledged
-PUT the backend holds exactly the digest the node resolves, or the write-back task is still in the
-retry table (from which C30 retries it until it succeeds); and the backend never holds anything but
-a copy of the node's digest. -/
+/-- **C32 (3b)** safety, every history: for every tag with an acknowledged PUT the backend holds the tag,
+or (asynchronous mode) the tag file is still on the node, not evictable, and its write-back task is
+stored (from where C30 retries it until it succeeds). -/
 theorem written_back_or_pending (cfg : Retry.Config) (wt : Bool) (ops : List Op) (t : Tag)
     (h : t ∈ ((sys cfg wt).run ops).okPut) :
     let s := (sys cfg wt).run ops
-    (lookup s.disk t).isSome ∧ (lookup s.backend t = lookup s.disk t ∨ stored s t) := by
-  obtain ⟨a, b⟩ := (inv_always cfg wt ops).okPut t h
-  exact ⟨a, b.imp id (fun h => h.2)⟩
+    (lookup s.backend t).isSome ∨ ((lookup s.disk t).isSome ∧ t ∈ s.persist ∧ stored s t) := by
+  rcases (inv_always cfg wt ops).okPut t h with a | ⟨a, b, _, c⟩
+  · exact Or.inl a
+  · exact Or.inr ⟨a, b, c⟩
 
-theorem backend_only_copies_disk (cfg : Retry.Config) (wt : Bool) (ops : List Op) (t : Tag) (b : Digest)
-    (h : lookup ((sys cfg wt).run ops).backend t = some b) : lookup ((sys cfg wt).run ops).disk t = some b :=
-  (inv_always cfg wt ops).backendDisk t b h
+/-- a tag file can only be evicted after it was written back -/
+theorem evicted_only_when_written_back (cfg : Retry.Config) (wt : Bool) (ops : List Op) (t : Tag)
+    (h : out ((sys cfg wt).run ops) (.evict t) = .ok) : (lookup ((sys cfg wt).run ops).backend t).isSome := by
+  have hi := inv_always cfg wt ops
+  simp only [out, stepO] at h
+  cases hd : lookup ((sys cfg wt).run ops).disk t with
+  | none => simp [hd] at h
+  | some v =>
+    simp only [hd] at h
+    by_cases hp : t ∈ ((sys cfg wt).run ops).persist
+    · simp [hp] at h
+    · exact hi.flag t (by rw [hd]; rfl) hp
 
-/-- **C32 (3c)** an execution of the write-back task against a reachable backend leaves the backend
-with exactly the node's digest (and removes the task). -/
-theorem exec_writes_back (s : State) (hi : Inv s) (t : Tag) (p : Retry.Pool)
+/-- **C32 (3c)** an execution of the write-back task against a reachable backend leaves the tag in the
+backend — with exactly the node's digest when the backend did not hold the tag before. -/
+theorem exec_writes_back (s : State) (t : Tag) (p : Retry.Pool)
     (hrun : Retry.placeOf s.r.own t = some (.running p)) (hd : (lookup s.disk t).isSome) :
-    lookup (step s (.exec t true)).backend t = lookup (step s (.exec t true)).disk t ∧ out s (.exec t true) = .ok := by
-  have e := runExecutor_spec s.disk s.backend t true hi.backendDisk
+    (lookup (step s (.exec t true)).backend t).isSome ∧ out s (.exec t true) = .ok ∧
+    (lookup s.backend t = none → lookup (step s (.exec t true)).backend t = lookup s.disk t) := by
+  have e := runExecutor_spec s.disk s.backend t true
   have hok : (runExecutor s.disk s.backend t true).1 = true := by
     unfold runExecutor
     split
@@ -493,7 +778,7 @@ theorem exec_writes_back (s : State) (hi : Inv s) (t : Tag) (p : Retry.Pool)
     rw [hr] at e hok
     simp only at hok
     subst hok
-    exact ⟨e.done rfl hd, rfl⟩
+    exact ⟨e.done rfl hd, rfl, fun hn => e.fresh rfl hn hd⟩
 
 /-! ### asynchronous mode: eventually written back -/
 
@@ -509,55 +794,75 @@ theorem runExecutor_up_ok (disk backend : List (Tag × Digest)) (t : Tag) :
   · rfl
   · cases lookup disk t <;> simp
 
-theorem lift_step (s : State) (hi : Inv s) (o : Retry.Op) (ho : Retry.SysOp o) (hn : Retry.NoAdding s.r) :
+/-- the backend does not hold the tag, or holds the node's digest -/
+def FreshOrSame (s : State) (t : Tag) : Prop := lookup s.backend t = none ∨ lookup s.backend t = lookup s.disk t
+
+theorem exec_freshOrSame (disk backend : List (Tag × Digest)) (x t : Tag) (ok : Bool) (b' : List (Tag × Digest))
+    (e : ExecSpec disk backend x ok b') (h : lookup backend t = none ∨ lookup backend t = lookup disk t) :
+    lookup b' t = none ∨ lookup b' t = lookup disk t := by
+  cases hb : lookup b' t with
+  | none => exact Or.inl rfl
+  | some v =>
+    right
+    rcases e.source t v hb with h1 | ⟨_, h1⟩
+    · rcases h with h | h
+      · rw [h] at h1; cases h1
+      · rw [← h, h1]
+    · rcases e.source t v hb with h2 | ⟨hxt, h2⟩
+      · rcases h with h | h
+        · rw [h] at h2; cases h2
+        · rw [← h, h2]
+      · subst hxt; rw [h2]
+
+theorem lift_step (s : State) (o : Retry.Op) (ho : Retry.SysOp o) (hn : Retry.NoAdding s.r) (t : Tag) :
     (step s (lift o)).r = Retry.step s.r o ∧ (step s (lift o)).disk = s.disk ∧
-    (step s (lift o)).okPut = s.okPut ∧ (step s (lift o)).writeThrough = s.writeThrough := by
+    (FreshOrSame s t → FreshOrSame (step s (lift o)) t) := by
   cases o <;> simp only [Retry.SysOp] at ho
-  case finish t ok =>
+  case finish x ok =>
     subst ho
     simp only [lift, step, stepO]
-    cases hp : Retry.placeOf s.r.own t with
+    cases hp : Retry.placeOf s.r.own x with
     | none => simp [Retry.step, Retry.stepO, hp]
     | some pl =>
       cases pl with
       | running p =>
-        have hok := runExecutor_up_ok s.disk s.backend t
-        cases hr : runExecutor s.disk s.backend t true with
+        have hok := runExecutor_up_ok s.disk s.backend x
+        have e := runExecutor_spec s.disk s.backend x true
+        cases hr : runExecutor s.disk s.backend x true with
         | mk ok b' =>
-          rw [hr] at hok
+          rw [hr] at hok e
           simp only at hok
           subst hok
-          exact ⟨rfl, rfl, rfl, rfl⟩
+          exact ⟨rfl, rfl, fun h => exec_freshOrSame s.disk s.backend x t true b' e h⟩
       | adding => simp [Retry.step, Retry.stepO, hp]
       | retrying => simp [Retry.step, Retry.stepO, hp]
       | queued p => simp [Retry.step, Retry.stepO, hp]
-  case addEnq t =>
-    have := (Retry.noAdding_step s.r (.addEnq t) hn (by simp [Retry.SysOp])).2 t rfl
+  case addEnq x =>
+    have := (Retry.noAdding_step s.r (.addEnq x) hn (by simp [Retry.SysOp])).2 x rfl
     simp [lift, step, stepO, internalOp, this]
-  all_goals simp [lift, step, stepO, internalOp]
+  all_goals simp [lift, step, stepO, internalOp, FreshOrSame]
 
-theorem lift_run (ops : List Retry.Op) (hs : ∀ o ∈ ops, Retry.SysOp o) (s : State) (hi : Inv s)
-    (hn : Retry.NoAdding s.r) :
+theorem lift_run (ops : List Retry.Op) (hs : ∀ o ∈ ops, Retry.SysOp o) (s : State) (hn : Retry.NoAdding s.r) (t : Tag) :
     ((ops.map lift).foldl step s).r = ops.foldl Retry.step s.r ∧ ((ops.map lift).foldl step s).disk = s.disk ∧
-    Inv ((ops.map lift).foldl step s) := by
+    (FreshOrSame s t → FreshOrSame ((ops.map lift).foldl step s) t) := by
   induction ops generalizing s with
-  | nil => exact ⟨rfl, rfl, hi⟩
+  | nil => exact ⟨rfl, rfl, id⟩
   | cons o rest ih =>
     have ho := hs o (by simp)
-    obtain ⟨a1, a2, _, _⟩ := lift_step s hi o ho hn
+    obtain ⟨a1, a2, a3⟩ := lift_step s o ho hn t
     have hn' : Retry.NoAdding (step s (lift o)).r := by
       rw [a1]; exact (Retry.noAdding_step s.r o hn ho).1
-    obtain ⟨b1, b2, b3⟩ := ih (fun o' h' => hs o' (List.mem_cons_of_mem _ h')) (step s (lift o)) (step_inv s _ hi) hn'
+    obtain ⟨b1, b2, b3⟩ := ih (fun o' h' => hs o' (List.mem_cons_of_mem _ h')) (step s (lift o)) hn'
     simp only [List.map_cons, List.foldl_cons]
-    exact ⟨by rw [b1, a1], by rw [b2, a2], b3⟩
+    exact ⟨by rw [b1, a1], by rw [b2, a2], fun h => b3 (a3 h)⟩
 
 /-- **C32 (3d) eventually written back, in the no-absorbing-state form.**  In every reachable state of a
-node in asynchronous mode, for every tag with an acknowledged PUT whose digest the backend does not
-hold yet, there is a continuation — a process restart, then only the retry manager's own steps and
+node in asynchronous mode, for every tag with an acknowledged PUT that the backend does not hold yet, there
+is a continuation — a process restart, then only the retry manager's own steps and
 executor runs against a reachable backend — after which the backend holds exactly the node's digest. -/
 theorem eventually_written_back (cfg : Retry.Config) (hc : Retry.WFCfg cfg) (ops : List Op) (t : Tag)
     (hok : t ∈ ((sys cfg false).run ops).okPut)
-    (hnb : lookup ((sys cfg false).run ops).backend t ≠ lookup ((sys cfg false).run ops).disk t) :
+    (hnb : lookup ((sys cfg false).run ops).backend t = none) :
     ∃ cont : List Op, (∀ o ∈ cont, o = .restart ∨ (∃ r, o = .retry r) ∨ ∃ t', o = .exec t' true) ∧
       lookup ((sys cfg false).run (ops ++ cont)).backend t = lookup ((sys cfg false).run (ops ++ cont)).disk t ∧
       (lookup ((sys cfg false).run (ops ++ cont)).disk t).isSome := by
@@ -595,12 +900,12 @@ theorem eventually_written_back (cfg : Retry.Config) (hc : Retry.WFCfg cfg) (ops
       | restart =>
         simp only [step, stepO]
         exact (Retry.restart_facts s.r).1
+      | evict t => simp only [step, stepO]; (repeat' split) <;> rfl
     exact this.trans h
-  obtain ⟨hdisk, hbs⟩ := hi.okPut t hok
-  have hstored : stored s t := by
-    rcases hbs with h | ⟨_, h⟩
-    · exact absurd h hnb
-    · exact h
+  obtain ⟨hdisk, hstored⟩ : (lookup s.disk t).isSome ∧ stored s t := by
+    rcases hi.okPut t hok with h | ⟨a, _, _, c⟩
+    · rw [hnb] at h; cases h
+    · exact ⟨a, c⟩
   let s1 := step s .restart
   have hi1 : Inv s1 := step_inv s _ hi
   have hr1 : s1.r = Retry.step (Retry.step s.r .crash) (.start []) := rfl
@@ -611,7 +916,8 @@ theorem eventually_written_back (cfg : Retry.Config) (hc : Retry.WFCfg cfg) (ops
     exact kept _ _ _ hstored (by simp) (by intro inv h; cases h)
   obtain ⟨rops, hsys, p, hp⟩ := Retry.can_reach_exec s1.r hi1.good hup (by rw [hcfg1, hcfg]; exact hc) t hst1
   have hn1 : Retry.NoAdding s1.r := by intro e he; rw [hown] at he; cases he
-  obtain ⟨l1, l2, l3⟩ := lift_run rops hsys s1 hi1 hn1
+  obtain ⟨l1, l2, l3⟩ := lift_run rops hsys s1 hn1 t
+  have hfs : FreshOrSame ((rops.map lift).foldl step s1) t := l3 (Or.inl hnb)
   refine ⟨.restart :: (rops.map lift ++ [.exec t true]), ?_, ?_⟩
   · intro o ho
     rcases List.mem_cons.mp ho with rfl | ho
@@ -623,19 +929,28 @@ theorem eventually_written_back (cfg : Retry.Config) (hc : Retry.WFCfg cfg) (ops
   · have hrun : Retry.placeOf ((rops.map lift).foldl step s1).r.own t = some (.running p) := by rw [l1]; exact hp
     have hd2 : (lookup ((rops.map lift).foldl step s1).disk t).isSome := by
       rw [l2]; exact hdisk
-    have := exec_writes_back _ l3 t p hrun hd2
+    have hex := exec_writes_back _ t p hrun hd2
     have hrun' : (sys cfg false).run (ops ++ .restart :: (rops.map lift ++ [.exec t true])) =
         step ((rops.map lift).foldl step s1) (.exec t true) := by
       simp [Sys.run, sys, List.foldl_append, s1, s]
     rw [hrun']
-    refine ⟨this.1, ?_⟩
     have hds : (step ((rops.map lift).foldl step s1) (.exec t true)).disk = ((rops.map lift).foldl step s1).disk := by
       simp only [step, stepO, hrun]
-    rw [hds]; exact hd2
+    refine ⟨?_, by rw [hds]; exact hd2⟩
+    rw [hds]
+    rcases hfs with hf | hf
+    · exact hex.2.2 hf
+    · -- the backend already held the node's digest: an execution keeps existing entries
+      have e := runExecutor_spec ((rops.map lift).foldl step s1).disk ((rops.map lift).foldl step s1).backend t true
+      obtain ⟨v, hv⟩ := Option.isSome_iff_exists.mp hd2
+      have hbv : lookup ((rops.map lift).foldl step s1).backend t = some v := by rw [hf, hv]
+      have : lookup (step ((rops.map lift).foldl step s1) (.exec t true)).backend t = some v := by
+        simp only [step, stepO, hrun]
+        exact e.stable t v hbv
+      rw [this, hv]
 
 -- non-vacuity: write-through with a backend outage on the first two attempts; a refused PUT; a second
 -- PUT with another digest; asynchronous mode with a failed and a retried write-back
-def cfg1 : Retry.Config := { capIn := 4, capRe := 4, nIn := 2, nRe := 2, retryInterval := 0 }
 def wtHist : List Op := [.put 1 10 [.ok, .ok] [false, false, true], .put 2 20 [.ok, .notFound] [true], .put 1 11 [] [true]]
 example : ((sys cfg1 true).run wtHist).disk = [(1, 10)] ∧ ((sys cfg1 true).run wtHist).backend = [(1, 10)] ∧
     ((sys cfg1 true).run wtHist).okPut = [1] := by decide
@@ -647,5 +962,14 @@ def asyncHist : List Op :=
 example : ((sys cfg1 false).run asyncHist).backend = [] ∧ stored ((sys cfg1 false).run asyncHist) 1 := by decide
 example : ((sys cfg1 false).run (asyncHist ++ [.exec 1 true])).backend = [(1, 10)] ∧
     ¬ stored ((sys cfg1 false).run (asyncHist ++ [.exec 1 true])) 1 := by decide
+
+-- eviction: refused while the write-back is pending, allowed afterwards; the node then answers from
+-- the backend (the fallback branch of GET is live), and nothing when the backend is unreachable
+def evictHist : List Op := [.put 1 10 [.ok] [], .evict 1, .retry (.take .inc), .exec 1 true, .evict 1]
+example : out ((sys cfg1 false).run (evictHist.take 1)) (.evict 1) = .refused := by decide
+example : ((sys cfg1 false).run evictHist).disk = [] ∧ ((sys cfg1 false).run evictHist).backend = [(1, 10)] := by decide
+example : out ((sys cfg1 false).run evictHist) (.get 1 true) = .digest 10 ∧
+    out ((sys cfg1 false).run evictHist) (.get 1 false) = .notFound := by decide
+example : ∀ o ∈ asyncHist, NoEvict o := by decide
 
 end KrakenModel.Spec.C32
